@@ -28,6 +28,7 @@ def run(ctx):
     _shared_r4(ctx)
     _shared_r5(ctx)
     _round7(ctx)
+    _round8(ctx)
 
 
 def _run_main(ctx):
@@ -109,3 +110,10 @@ def _round7(ctx):
     with ctx.rule('R13.6', "a returned message of any size reaches the listener, and the blocked-listener queue is polled under its own token (shared with C03, C10)", floor=7) as r:
         A.include(ctx, r, 'c03', 'R03.1', pick=(':Return:',))
         A.include(ctx, r, 'c10', 'R10.7', pick=('source-token-pairs',))
+
+
+def _round8(ctx):
+    """Rules that are necessary conditions of this property too (found by seeding round 8)."""
+    from rules import arms as A
+    with ctx.rule('R13.7', 'a new blocked-listener is handed over with a blocking send (never dropped with the caller left waiting) (shared with C09)', floor=1) as r:
+        A.include(ctx, r, 'c09', 'R09.3', pick=('set_blocked_tx',))
